@@ -1,5 +1,7 @@
 import Lean.Data.Json
 import AnonModel.Model.Encode
+import AnonModel.Driver.OpsInterval
+import AnonModel.Driver.OpsIdent
 /-! Dispatch of line-protocol operations to model functions. -/
 open Lean
 namespace AnonModel.Driver
@@ -27,6 +29,12 @@ def step (j : Json) : Json :=
   | none => badOp
   | some op =>
     match stepEncode op j with
+    | some r => r
+    | none =>
+    match stepInterval op j with
+    | some r => r
+    | none =>
+    match stepIdent op j with
     | some r => r
     | none => badOp
 
